@@ -34,7 +34,7 @@ func typeClass(t reflect.Type) string {
 func TestCheck(t *testing.T) {
 	r := h.Start(t, "C01")
 	defer r.Finish()
-	r.Meta("rule", "cases = every leaf type, every constructor applied to every leaf (depth 1) and every pair of constructors (depth 2), all 225 specialised map cells, plus seeded random deeper types; per type the systematic boundary value list (+ seeded random values) x {simple, reference} x encode entry points {Marshal, Encode, Write, Writer} x decode entry points {Unmarshal, NewDecoder, FromReader} x decoder settings where interface{} occurs. distinct_nontrivial = distinct (type, value index, mode) triples whose value is not the zero value of its type")
+	r.Meta("rule", "cases = every leaf type, every constructor applied to every leaf (depth 1) and every pair of constructors (depth 2), all 225 specialised map cells, plus seeded random deeper types; per type the systematic boundary value list (+ seeded random values) x {simple, reference} x encode entry points {Marshal, Encode, Write, Writer} x decode entry points {Unmarshal, NewDecoder, FromReader} x decoder settings where interface{} occurs. distinct_nontrivial = distinct (type, value index, mode) triples whose value is not the zero value of its type Added: values made of more than 10 000 containers in total (wide), strings with a continuation byte at a character start, 5/6-byte leads and overlong forms.")
 	r.Meta("assumptions", []string{
 		"equality oracle eqv.Equal: nil==empty for slices/maps, **T->nil collapses, time by instant+UTC flag, floats by == plus NaN==NaN, big.* by Cmp, interface{} positions by denotation",
 		"big.Float values restricted to values whose shortest decimal is exact (the wire carries no precision)",
